@@ -570,21 +570,36 @@ class CallMixin:
         finally:
             self.specmode -= 1
         tnames = {n.id for n in ast.walk(gen.target) if isinstance(n, ast.Name)}
-        free = sorted({n.id for n in ast.walk(node.elt) if isinstance(n, ast.Name)} - tnames)
+        free = []
+        inner = []                             # names bound by comprehensions nested in the element expression
+        for n in ast.walk(node.elt):
+            if isinstance(n, ast.comprehension):
+                for m in ast.walk(n.target):
+                    if isinstance(m, ast.Name) and m.id not in inner:
+                        inner.append(m.id)
+        for n in ast.walk(node.elt):          # captured names in order of first occurrence
+            if isinstance(n, ast.Name) and n.id not in tnames and n.id not in free and n.id not in inner:
+                free.append(n.id)
         r = None
-        if isinstance(gen.target, ast.Name):
-            class _Ren(ast.NodeTransformer):
-                def visit_Name(self, n):
-                    return ast.Name(id='_x', ctx=n.ctx) if n.id in tnames else n
+        if isinstance(gen.target, ast.Name) and not (set(inner) & tnames):
             import copy as _copy, hashlib as _hl
-            dumped = ast.dump(_Ren().visit(_copy.deepcopy(node.elt)))
-            caps = []
+            caps, ren = [], {nm: f'_b{k}' for k, nm in enumerate(inner)}
             try:
                 for nm in free:
                     v = self.lookup(nfr, nm)
                     if isinstance(v, (SBuiltin, SSpecFn, SModule, SFunc, SClass)):
                         continue
+                    ren[nm] = f'_c{len(caps)}'
                     caps.append(self.to_val(v))
+
+                class _Ren(ast.NodeTransformer):
+                    def visit_Name(self, n):
+                        if n.id in tnames:
+                            return ast.Name(id='_x', ctx=n.ctx)
+                        if n.id in ren:
+                            return ast.Name(id=ren[n.id], ctx=n.ctx)
+                        return n
+                dumped = ast.dump(_Ren().visit(_copy.deepcopy(node.elt)))
                 key = 'MAP_' + _hl.sha1((dumped + kind).encode()).hexdigest()[:10]
                 F = uf(key + f'_{len(caps)}', SeqV, *([Val] * len(caps)), SeqV)
                 r = F(seq.t, *caps)
